@@ -289,6 +289,9 @@ WITNESS_ASAN_ONLY = [
 WITNESS_REFINALIZE = [
     "C w-refin-x x c 0 RI P:F1,v1,z,R0,E,Z,Z",
     "C w-refin-a a c 0 G:l,F1,v2,R0,E,Z RI P:l,F2,v1,c0.1,z,b0,R0,E,Z,Z",
+    # finalize() again after a failed REGISTER ALLOCATION (jump to a label that is never bound): supported since /repo 45bb8d0
+    "C w-refin-ra-x x c 0 RI P:l,F1,v1,c0.1,R0,E,Z,Z",
+    "C w-refin-ra-a a c 0 G:l,F1,v1,c0.1,R0,E,Z RS P:l,l,F2,v1,h24,c1.1,R0,E,Z,Z",
 ]
 
 
@@ -482,7 +485,7 @@ def recycled_builder_correspondence(ck, rng):
     interpreter and the canonical dump); every per-command answer must equal the one C08's extracted Coq model gives from its
     initial state. Returns the counters for the evidence. C08's files are used read-only; if they no longer build the stage is
     skipped and says so."""
-    info = {"programs": 0, "modes": ["reinit", "soft reset + init + attach", "hard reset + init + attach"], "steps_compared": 0,
+    info = {"programs": 0, "modes": ["reinit", "soft reset + init + attach", "hard reset + init + attach", "detach + attach (holder kept)"], "steps_compared": 0,
             "disagreements": 0, "fresh_vs_c08_model_disagreements": 0}
     try:
         import c08_gen
@@ -526,7 +529,22 @@ def recycled_builder_correspondence(ck, rng):
         for i, t in ch:
             if fresh["STEP"].get("p%d" % i, []) != want.get("p%d" % i, []):
                 info["fresh_vs_c08_model_disagreements"] += 1
-        for how in (0, 1, 2):
+        passes = [(how, inp, ch, want, fresh) for how in (0, 1, 2, 3)]
+        # probing variant (tie of C16_no_label_survives_reset): the stream starts by binding label ids 0 and 2 -- after a reset no
+        # label of the earlier use may be nameable (kInvalidLabel), exactly as C08's model answers from its initial state
+        pch = ch[:8]
+        pinp = "".join(t.split("\n", 1)[0] + "\nB 0\nB 2\n" + t.split("\n", 1)[1] for _i, t in pch)
+        rc, pmo, pme = vlib.sh([model], inp=pinp, timeout=600)
+        rc, pfo, pfe = vlib.sh([impl, "run"], inp=pinp, timeout=600)
+        pwant, pfresh = steps_of(pmo, "STEP"), {"STEP": steps_of(pfo, "STEP"), "STEPC": steps_of(pfo, "STEPC")}
+        for i, _t in pch:
+            w0 = pwant.get("p%d" % i, [])
+            if len(w0) >= 2 and not (w0[0].split()[1] == "12" and w0[1].split()[1] == "12"):
+                ck.violation("C16/recycled-builder/probe-model", "C08's model does not refuse binding a label on its initial state: %s" % w0[:2],
+                             {"broken": "probe of C16_no_label_survives_reset"}, no_input=True)
+            info["label_probes"] = info.get("label_probes", 0) + 2 * 3 * 2
+        passes += [(how, pinp, pch, pwant, pfresh) for how in (0, 1, 2)]
+        for how, inp, ch, want, fresh in passes:
             rc, o, e = vlib.sh([rb, str(how)], inp=inp, timeout=600)
             if rc != 0:
                 ck.violation("C16/recycled-builder/crash", "recycled builder harness died (mode %s): %s" % (info["modes"][how], e[-400:]),
@@ -543,7 +561,7 @@ def recycled_builder_correspondence(ck, rng):
                     if g != w_:
                         info["disagreements"] += 1
                         k = next((j for j, (a, b) in enumerate(zip(g, w_)) if a != b), min(len(g), len(w_)))
-                        ck.violation("C16/recycled-builder/%s/%s" % ("builder" if tag == "STEP" else "compiler", ["reinit", "soft", "hard"][how]),
+                        ck.violation("C16/recycled-builder/%s/%s" % ("builder" if tag == "STEP" else "compiler", ["reinit", "soft", "hard", "reattach"][how]),
                                      "a %s that was used before and re-initialised (%s) answers command %d of a C08 command stream differently "
                                      "from C08's proven Builder model started in its initial state AND from a fresh emitter: impl %s, model %s, "
                                      "fresh %s" % ("Builder" if tag == "STEP" else "Compiler", info["modes"][how], k, g[k:k + 1], w_[k:k + 1], fr[k:k + 1]),
@@ -595,12 +613,17 @@ def run(ck):
         if gen_failed:
             # which members break the obligation? evaluated by the SAME Coq checker (function `uncovered`), not by python
             ev = text.split("Lemma reset_fields_ok")[0] + \
-                "Eval vm_compute in (uncovered classes funcs).\nEval vm_compute in (hygiene classes funcs).\n"
+                "Eval vm_compute in (uncovered classes funcs).\nEval vm_compute in (hygiene classes funcs).\nEval vm_compute in (reach_closed funcs).\n"
             rc, out = ck.coq_eval(ev, name="c16_uncovered")
             uncovered = re.findall(r'\("([^"]*)",\s*"([^"]*)",\s*"([^"]*)"\)', out)
-            hyg = re.findall(r"=\s*(true|false)\s*:\s*bool", out)
-            ck.log("reflection lemma failed; uncovered members: %s; hygiene: %s" % (uncovered, hyg))
-            if rc != 0 or (not uncovered and hyg != ["false"]):
+            bools = re.findall(r"=\s*(true|false)\s*:\s*bool", out)
+            hyg, closed = bools[:1], bools[1:2]
+            ck.log("reflection lemma failed; uncovered members: %s; hygiene: %s; closures closed: %s" % (uncovered, hyg, closed))
+            if closed == ["false"]:
+                ck.violation("C16/reach-closure-incomplete", "the callee closure computed for a FollowAll root of a reset route is not closed under "
+                             "the extracted call edges (fuel exhausted?): the coverage verdicts would be computed over too few functions",
+                             {"broken": "reach_closed funcs = true (coq/gen/ResetFields.v)"}, no_input=True)
+            if rc != 0 or (not uncovered and hyg != ["false"] and closed != ["false"]):
                 ck.violation("C16/translator-output-does-not-compile", "regenerated ResetFields.v does not compile: %s" % (log + out)[-1500:],
                              {"broken": "translator tie coq/gen/ResetFields.v", "log": (log + out)[-3000:]}, no_input=True)
             elif hyg == ["false"]:
@@ -610,7 +633,8 @@ def run(ck):
     if gen_failed:
         obl = ck.coq_properties()            # committed snapshot: lifecycle theorems still recorded; the coverage ones are overridden below
         for o in obl:
-            if o["name"] in ("C16_every_field_reset", "C16_no_uncovered_member", "C16_route_glue_calls_present", "C16_covered_means_written"):
+            if o["name"] in ("C16_every_field_reset", "C16_no_uncovered_member", "C16_route_glue_calls_present", "C16_covered_means_written",
+                             "C16_route_closure_complete"):
                 o["ok"] = False
     else:
         obl = ck.coq_properties(gen_dir=gen_dir)
@@ -745,6 +769,15 @@ def run(ck):
                                  "fresh objects) is not the tail of the code generated when it is compiled after another function by the same "
                                  "Compiler (state of the previous function leaks into the next one)" % (variant, len(alone_text) // 2),
                                  {"case": c, "variant": variant, "alone": alone_text[:600], "combined_tail": mt.group(1)[-len(alone_text) - 64:][:800]})
+            mpd = re.search(r" stalepd=(\d+)", rec)
+            fpd = re.search(r" stalepd=(\d+)", fresh)
+            if (mpd and int(mpd.group(1))) or (fpd and int(fpd.group(1))):
+                stats["stale_pass_data_hits"] = stats.get("stale_pass_data_hits", 0) + 1
+                ck.violation("C16/residue/ra-pass-data-left-on-nodes",
+                             "%s build: after finalize() returned, %s node(s) of the Compiler (node list / label nodes) still carry register-"
+                             "allocator pass data, which points into the pass arena that has been reset" %
+                             (variant, (mpd or fpd).group(1) if (mpd and int(mpd.group(1))) else fpd.group(1)),
+                             {"case": c, "variant": variant, "recycled": rec[:1200]})
             rec2, fresh2 = strip_field(rec, "namesok"), strip_field(fresh, "namesok")
             if rec2 == fresh2:
                 stats["identical"] += 1
@@ -856,7 +889,7 @@ def run(ck):
                                      "file": "coq/gen/ResetFields.v (regenerated)"}, no_input=True)
     for o in ck.proof_failures():
         if gen_failed and uncovered and o["name"] in ("C16_every_field_reset", "C16_no_uncovered_member", "C16_route_glue_calls_present",
-                                                      "C16_covered_means_written"):
+                                                      "C16_covered_means_written", "C16_route_closure_complete"):
             continue            # reported per member above
         ck.violation("C16/proof/" + o["name"], "theorem %s no longer checks (%s)" % (o["name"], getattr(ck, "coq_log", "")[-800:]),
                      {"broken": "theorem " + o["name"], "file": "coq/theories/Properties/Properties_C16.v"}, no_input=True)
@@ -885,10 +918,17 @@ def run(ck):
                                           "CodeHolder / BaseEmitter / BaseAssembler|BaseBuilder / BaseCompiler of the recycled objects vs. fresh objects "
                                           "in the same configuration"},
          "unsupported": ["operand storage behind InstNode is not a data member: covered by glue calls (must_call), not by member writes",
-                         "early returns inside loops are not turned into guards", "RAAssignment / RALiveSpans / RATiedReg internals",
                          "FuncRetNode / CommentNode / SentinelNode (no own data members)",
-                         "the Builder theorems (BuilderDirty.v) are tied to the code through C08's correspondence for fresh builders and through "
-                         "this check's differential for recycled ones, not by an own command-level correspondence"],
+                         "Builder programs with absolute calls, x64 absolute calls under a known base address and programs after an "
+                         "abandoned function: counter effects measured, not computed (lifecycle_model_correspondence.measured_programs)",
+                         "C08 command streams with strict validation are left to C08 (the validator's verdict is an input of its model)"],
+         "proved_vs_compared": {
+             "proved_for_all_inputs": "36+ theorems: coverage obligation over ALL members/routes of the regenerated data; lifecycle model over ALL "
+                                      "histories; C08 node-list model over ALL command sequences and histories (no finite sweep, no sampling)",
+             "compared_on_generated_inputs": "implementation vs extracted models on every generated lifecycle step and every C08 command "
+                                             "(counts in lifecycle_model_correspondence / recycled_builder_correspondence); recycled vs fresh "
+                                             "objects on every generated lifecycle (differential, representation_probe)",
+             "the key 'samples' below lists a few of the compared cases verbatim (required evidence field); nothing is claimed from them": True},
          "recycled_builder_correspondence": rb_info,
          "lifecycle_model_correspondence": corr, "traces_validated_against_impl": corr["scripts"]},
         assumptions=["theorems are about the extracted member/write/call-graph data and the Gallina lifecycle model, not about the C++ text",
